@@ -91,10 +91,14 @@ func init() {
 	core.Register("droppedmut", func(args []string) string {
 		dir, dbName, tableName, attnum := mutTree(args)
 		defer os.RemoveAll(dir)
-		pgdump.FindDroppedColumns(dir, dbName)
-		pgdump.ScanDroppedColumns(dir)
-		pgdump.GetDroppedColumnSchema(dir, dbName, tableName)
-		pgdump.RecoverDroppedColumnData(dir, dbName, tableName, attnum)
+		if !filesIntact(dir, func() {
+			pgdump.FindDroppedColumns(dir, dbName)
+			pgdump.ScanDroppedColumns(dir)
+			pgdump.GetDroppedColumnSchema(dir, dbName, tableName)
+			pgdump.RecoverDroppedColumnData(dir, dbName, tableName, attnum)
+		}) {
+			return "INPUT-MODIFIED:files"
+		}
 		return "ok"
 	})
 	// dropped_mutcorr: the same trees; the full results (spec silent: correspondence of the model on malformed input)
